@@ -178,6 +178,7 @@ var inflightTab sync.Map // *Exec -> *inflight
 // StartWatchdog calls on (once) when a single operation has been running for more than limit
 // (>= 20 s: five orders of magnitude above a legitimate call). on must end the process.
 func StartWatchdog(limit time.Duration, on func(variant int, hist []Op)) {
+	limit *= 15 // same slack as engine.NewWatchdog: a safety net for non-termination, not a stopwatch
 	go func() {
 		for {
 			time.Sleep(2 * time.Second)
